@@ -118,6 +118,8 @@ func runProbes() {
 		{id: idEvalNonFinite, cmds: [][]string{{"EVALRO", "return {1/0}", "0"}}},
 		{id: idEvalOddKeys, cmds: [][]string{{"EVAL", "return {[1.5]='x'}", "0"}}},
 		{id: idEvalOddKeys, cmds: [][]string{{"EVALNA", "return {[true]='x'}", "0"}}},
+		{id: idClientListNaN, cmds: [][]string{{"CLIENT", "SETNAME", "nan"}, {"CLIENT", "LIST"}}},
+		{id: idClientListNaN, cmds: [][]string{{"CLIENT", "SETNAME", "-Infinity"}, {"CLIENT", "LIST"}}},
 	}
 	for i := range probes {
 		p := &probes[i]
@@ -131,6 +133,8 @@ func runProbes() {
 				excl.evalNonFinite = true
 			case idEvalOddKeys:
 				excl.oddKeys = true
+			case idClientListNaN:
+				exclClientNaN = true
 			}
 		}
 	}
@@ -275,6 +279,9 @@ func newG(rt *rapid.T, c *ev.Collector, ns gen.Names) *G {
 	}
 	if exclNearbyBuffer {
 		c.Excluded(idCrashNearbyBuffer)
+	}
+	if exclClientNaN {
+		c.Excluded(idClientListNaN)
 	}
 	return &G{t: rt, ns: ns, nonFinite: !ex.nonFinite, evalNonFinite: !ex.evalNonFinite, oddKeys: !ex.oddKeys,
 		noLineAreas: ev.KnownActive(idHangLineString), onExcluded: c.Excluded}
